@@ -129,4 +129,16 @@ macro "fiat_exec " n:num : tactic => `(tactic| (
   all_goals apply exec_nil
   all_goals simp only [Post, List.range, List.range.loop, List.map, lookup, Nat.reduceEqDiff, ↓reduceIte]))
 
+/-! named single-step tactics (used by generated proof scripts that need to refer to registers) -/
+macro "fx_mov " x:ident e:ident : tactic => `(tactic| (apply exec_mov; intro $x $e; fiat_eval at $e))
+macro "fx_mulx " l:ident hh:ident e:ident b:ident : tactic =>
+  `(tactic| (apply exec_mulx; intro $l $hh $e $b; fiat_eval at $e; fiat_eval at $b))
+macro "fx_adc " l:ident hh:ident e:ident b:ident : tactic =>
+  `(tactic| (apply exec_adc; intro $l $hh $e $b; fiat_eval at $e; fiat_eval at $b))
+macro "fx_sbb " d:ident bw:ident hd:ident hbw:ident e:ident : tactic =>
+  `(tactic| (refine exec_sbb _ _ _ _ _ _ _ _ _ _ (by (fiat_evalg; omega)) (by (fiat_evalg; omega)) ?_; intro $d $bw $hd $hbw $e; fiat_eval at $e; fiat_eval at $hd))
+macro "fx_cmov " v:ident e:ident : tactic => `(tactic| (apply exec_cmov; intro $v $e; fiat_eval at $e))
+macro "fx_out " v:ident e:ident : tactic => `(tactic| (apply exec_out; intro $v $e; fiat_eval at $e))
+macro "fx_done" : tactic => `(tactic| (apply exec_nil; simp only [Post, List.range, List.range.loop, List.map, lookup, Nat.reduceEqDiff, ↓reduceIte]))
+
 end SqiProofs.FiatExec
